@@ -913,6 +913,26 @@ func (m *Model) ruleREGISTRY(r *Results) {
 			}
 		}
 		for _, c := range clones {
+			// the copy handed out must be a copy of the REGISTERED bucket (a lookup in the registry map)
+			recvV := stripConv(c.Common().Args[0])
+			fromRegistry := false
+			if lk, ok := recvV.(*ssa.Lookup); ok {
+				if ld, ok := lk.X.(*ssa.UnOp); ok {
+					if fa, ok := ld.X.(*ssa.FieldAddr); ok && fieldOf(fa) == bucketMap {
+						fromRegistry = true
+					}
+				}
+			}
+			if ex, ok := recvV.(*ssa.Extract); ok {
+				if lk, ok := ex.Tuple.(*ssa.Lookup); ok {
+					if ld, ok := lk.X.(*ssa.UnOp); ok {
+						if fa, ok := ld.X.(*ssa.FieldAddr); ok && fieldOf(fa) == bucketMap {
+							fromRegistry = true
+						}
+					}
+				}
+			}
+			r.check(fromRegistry, rule, name+" / handle is a copy of the registered bucket", m.instrPos(c), "the handle handed out copies the bucket found in the registry", "the handle handed out is a copy of something other than the registered bucket (e.g. the caller's freshly opened one): handles opened concurrently on one name then use different databases, mutexes and feed registries")
 			counted := false
 			for _, inc := range incs {
 				if inc.Block() == c.Block() || inc.Block().Dominates(c.Block()) {
